@@ -1,5 +1,6 @@
 SPECIFICATION Spec
 CONSTANTS
+  Dev <- MC_DevAll
   Mode = "witness"
   MaxParams = 0
 CHECK_DEADLOCK FALSE
